@@ -34,6 +34,8 @@ def load_ctx(config, repo):
     ctx.config = config
     ctx.repo = repo
     ctx.facts = Facts(api, facts)
+    import analyses
+    analyses.CURRENT_FACTS = ctx.facts
     ctx.effects = Effects(ctx.facts)
     ctx.extract_s = dt
     ctx.cache = {}
